@@ -2,6 +2,7 @@ import WgslVerif.Check.Basic
 import WgslVerif.Check.C11
 import WgslVerif.Check.C03
 import WgslVerif.Check.C20
+import WgslVerif.Check.All
 /-
 Driver: reads `(case …)` lines from stdin (written by harness `dump`), prints one line per
 (property, run):   V|<prop>|<case id>|<run#>|<corr>|<spec>|<tags>
@@ -12,7 +13,8 @@ open WgslVerif
 
 def registry : List (String × (Ctx → Run → Verdict)) :=
   [ ("C11", CheckC11.check), ("C03", CheckC03.check),
-    ("C20", fun c r => CheckC20.check c r r.visits) ]
+    ("C20", fun c r => CheckC20.check c r r.visits),
+    ("ALL", CheckAll.check) ]
 
 def decodeCase (s : Sexp) : Except String (Ctx × List Run) := do
   let fs ← match s with
